@@ -1018,6 +1018,46 @@ def rule_typed_creation(chk, cls):
     chk.floor('arrays created for new properties in add_property', n, 3)
 
 
+def rule_removal_exits(chk, cls):
+    """remove_particles removes exactly the particles listed: on the CPU path nothing returns before every property had the listed entries removed, except for an *empty*
+    list (a test on the length of the list).  A shortcut that looks at the values (`if not indices.any(): return` - false for the list [0]) leaves particle 0 in place.
+    Shared with C16: a fluid particle that crossed the outlet plane must leave the fluid whatever its index."""
+    from verif_static import paths as PT
+    fn = M.methods(cls).get('remove_particles')
+    if fn is None:
+        raise AnalysisError('ParticleArray.remove_particles vanished')
+    bad = []
+    n = 0
+    for p_ in PT.enumerate_paths(M.docstring_stripped(fn.body)):
+        if p_[-1].kind == 'raise':
+            continue
+        cl = [cal for i, c, cal, env in PT.calls_on(p_)]
+        if any(c_.startswith('self.gpu.') for c_ in cl):
+            continue                     # the GPU delegate
+        n += 1
+        # the path reaches the loop that removes the entries from every property (the variant of the path on which that loop runs zero times - an array without properties - included)
+        removed = any(e.kind == 'loop' and isinstance(e.node, ast.For) and any((M.call_name(c_) or '').endswith('.remove') for c_ in M.calls(e.node)) for e in p_)
+        if removed:
+            continue
+        # a path that removes nothing: every test it took on the way must be about the list being empty
+        facts = [(compact_(t_), tr) for t_, tr in PT.path_facts(p_)]
+        empty = False
+        for t_, tr in facts:
+            tt = t_.replace('index_list', 'L').replace('indices', 'L')
+            if (tt in ('L.length==0', 'len(L)==0', 'L.size==0', 'L.length<1', 'L.length<=0') and tr) or (tt in ('L.length>0', 'len(L)>0', 'L.size>0', 'L.length!=0', 'len(L)', 'L.size', 'L.length') and not tr):
+                empty = True
+        if not empty:
+            bad.append([t_ for t_, tr in facts][-2:])
+    chk.decide(not bad, 'whole-property-coverage', 'remove_particles:every-listed-particle-is-removed', node=fn, file=PA, func='remove_particles',
+               detail_bad='a path leaves remove_particles without removing anything although the list of indices is not known to be empty (tests on the way: %s): a shortcut on the '
+                          'values of the indices (any(), sum(), truth of an array) is false for the list [0], so the particle stored first is never removed' % (bad[0] if bad else ''),
+               detail_ok='%d CPU paths: the listed entries are removed from every property unless the list is empty' % n)
+
+
+def compact_(t):
+    return U(t).replace(' ', '')
+
+
 def rule_count_from_data(chk, cls):
     """add_particles / add_property: where the number of particles is read off the length of the data given for a property, the length is divided by the stride of that
     same property (len(data) // stride): the data of a strided property holds stride values per particle"""
@@ -1168,6 +1208,7 @@ def main(chk):
     rule_default_kept(chk, cls)
     rule_count_from_data(chk, cls)
     rule_typed_creation(chk, cls)
+    rule_removal_exits(chk, cls)
     rule_initialize_model(chk)
     # align_particles keeps its index array a permutation (rule shared with C16, which relies on it after removals)
     import importlib.util
